@@ -152,7 +152,9 @@ fn gen_log_world(seed: u64, idx: usize) -> LogWorldScenario {
         script.behav[bi].code = *rng.pick(&[1, 3, 70]);
         script.prio = vec![(script.behav[bi].target.clone(), 1)];
         if rng.chance(2, 3) {
-            // its last words are long: the compressor is still busy with them when the failure is noticed
+            // its last words are long, and the disk stalls on the first block of a stdout archive: the
+            // compressor is certainly still behind when the failure is noticed
+            script.fs_write_stall = Some(format!("stdout.zst:1:{}", rng.range(200, 600)));
             let tag = format!("{}@{}", script.behav[bi].command, script.behav[bi].target);
             for fd in [1u8, 2u8] {
                 let mut v = Vec::new();
